@@ -182,12 +182,24 @@ func instantiateGenericModel(
 	// is not safe to mutate.
 	clonedStruct := reducedStruct.Clone()
 
-	rawParamNames := linq.Map(typeParamReplacementNodes, func(tParamNode *SymbolNode) string {
+	rawParamNames := make([]string, 0, len(typeParamReplacementNodes))
+	for _, tParamNode := range typeParamReplacementNodes {
 		if tParamNode.Kind.IsBuiltin() {
-			return tParamNode.Id.Name
+			rawParamNames = append(rawParamNames, tParamNode.Id.Name)
+			continue
 		}
-		return tParamNode.Data.(*metadata.TypeParamDeclMeta).Name
-	})
+
+		typeParamDecl, isTypeParamDecl := tParamNode.Data.(*metadata.TypeParamDeclMeta)
+		if !isTypeParamDecl {
+			// Type arguments such as other structs, composites or nested generics are not supported yet
+			return clonedStruct, fmt.Errorf(
+				"generic struct '%s' is instantiated with a type argument of kind '%s' which is not currently supported",
+				rawStruct.Name,
+				tParamNode.Kind,
+			)
+		}
+		rawParamNames = append(rawParamNames, typeParamDecl.Name)
+	}
 
 	if modelNameTransformer != nil {
 		clonedStruct.Name = modelNameTransformer(clonedStruct.Name, rawParamNames)
